@@ -54,13 +54,15 @@ fn serialize_char_infos(file: &File, bc: Char, ec: Char, b: &mut Vec<u8>) {
     for (c, dimens) in &file.char_dimens {
         v[(c.0 - bc.0) as usize].0 = Some(dimens.clone());
     }
+    // Tags of characters outside of the range [bc, ec] cannot be represented in a .tfm file.
+    let slot_index = |c: &Char| c.0.checked_sub(bc.0).map(usize::from);
     for (c, tag) in &file.char_tags {
-        if let Some(slot) = v.get_mut((c.0 - bc.0) as usize) {
+        if let Some(slot) = slot_index(c).and_then(|i| v.get_mut(i)) {
             slot.1 = SerializableCharTag::Valid(tag.clone());
         }
     }
     for (c, tag) in &file.unset_char_tags {
-        if let Some(slot) = v.get_mut((c.0 - bc.0) as usize) {
+        if let Some(slot) = slot_index(c).and_then(|i| v.get_mut(i)) {
             slot.1 = SerializableCharTag::Unset(*tag);
         }
     }
